@@ -109,6 +109,7 @@ def run(ctx):
     two_segment_ticks(ctx, exe)
     generated_max_dt(ctx)
     reconfigured_filter(ctx)
+    later_generation(ctx)
     several_filters(ctx, exe)
     return core.finish(ctx, audit, NOTE, RULE, PARTIAL)
 
